@@ -336,7 +336,7 @@ Proof using All.
   intros (Hu & Hv & Ho & Hs & Hc) HM. rewrite !(oneof_find_S words pu). cbv beta iota zeta.
   rel_solve; find_case HM; try apply le_rel_err.
   all: destruct Hfind as [Hk HR]; subst;
-       (apply le_rel_guard; [apply le_rewrap; apply Hc; exact HR | unfold Qof; cbn [fst snd]; repeat split; exact HR]).
+       (apply le_rel_guard; [apply le_rewrap_path; apply Hc; exact HR | unfold Qof; cbn [fst snd]; repeat split; exact HR]).
 Qed.
 
 
@@ -451,8 +451,8 @@ Proof using All.
       apply le_forM. intros kv. pose proof (alookup_props _ _ _ (fst kv) HPR) as HL.
       destruct (alookup (fst kv) ps1) as [p1|]; [destruct HL as (t' & -> & HRt) | rewrite HL; apply le_refl].
       cbn [with_type p_type p_disabled]. apply le_seg. apply le_bind; [|intros; apply le_refl].
-      apply le_rewrap. apply Hc. exact HRt.
-    + apply le_bind; [|intros; apply le_refl]. apply le_rewrap. apply Hu. exact HR.
+      apply le_rewrap_path. apply Hc. exact HRt.
+    + apply le_bind; [|intros; apply le_refl]. apply le_rewrap_path. apply Hu. exact HR.
   - destruct (is_str_any_map v).
     + eapply le_rel_bind; [apply Ho; exact HMR|]. intros; apply le_refl.
     + le_solve_with ltac:(first [apply Hv; exact HR]).
